@@ -645,7 +645,10 @@ class SymArray(_nd):
     def copy(self, order="C"):
         if rd(self) != object:
             return _nd.copy(self, order=order)
-        return set_sd(wrap(_nd.copy(base(self), order=order)), sd_of(self))
+        r = _nd.copy(base(self), order=order)
+        # keep the array class (the method is also planted on trimesh's TrackedArray)
+        r = _nd.view(r, type(self)) if type(self) is not _nd else wrap(r)
+        return set_sd(r, sd_of(self))
 
     def __bool__(self):
         if self.size != 1:
